@@ -39,6 +39,7 @@ def check(ck):
     r09_7(ck)
     r09_9(ck)
     r09_10(ck)
+    r09_11(ck)
 
 
 def _stmt(x):
@@ -561,3 +562,18 @@ def r09_10(ck):
                    "the %s entry of a daughter specification is never "
                    'read' % key)
     ck.floor('R09.10', n, 2, 'inheritance sites')
+
+
+def r09_11(ck):
+    ck.rule('R09.11', 'a moved subtree is reported to the engine at the '
+            'location where it was attached (symbolic path algebra; shared '
+            'with C10 R10.8)')
+    from . import c10
+    c10.r10_8(ck)
+    for o in ck.obligations:
+        if o['rule'] == 'R10.8':
+            o['rule'] = 'R09.11'
+    for v in ck.violations:
+        if v.rule == 'R10.8':
+            v.rule = 'R09.11'
+    ck.rules.pop('R10.8', None)
